@@ -24,6 +24,7 @@ ROOTS = ['root1', 'root2', 'me', 'alice', 'bob']
 F10_KEY = 'F10-child-announcing-level-and-root-becomes-parent-while-child'
 F11_KEY = 'F11-parent-update-not-forwarded-to-server'
 F27_KEY = 'F27-tree-change-while-logged-out-never-advertised-to-children'
+F28_KEY = 'F28-slow-new-child-gets-stale-root-after-parent-update'
 
 
 # ------------------------------------------------------------------------------------------
@@ -43,7 +44,9 @@ def apply_event(rig, ev):
     elif k == 'PP':
         rig.server_msg(M.PotentialParents.Response([PotentialParent(n, f'10.9.0.{NID[n]}', 2234) for n in ev[1]]))
     elif k == 'PI':
-        rig.peer_init(ev[1], ev[2], bool(ev[3]))
+        rig.peer_init(ev[1], ev[2], bool(ev[3]), hold=(len(ev) > 4 and ev[4] == 'hold'))
+    elif k == 'CR':          # the slow peer on this connection reads again (harness-only: no model event)
+        rig.child_release(ev[1])
     elif k == 'BL':
         rig.peer_msg(ev[1], M.DistributedBranchLevel.Request(ev[2]))
     elif k == 'BR':
@@ -77,7 +80,7 @@ def observe(rig, prev_closed):
         'srv': rig.server_new(),
         'conn': {c: m for c, m in ((c, rig.conn_new(c)) for c in sorted(rig.eps)) if m},
         'closed': [c for c in closed if c not in prev_closed],
-        'held': rig.held, 'blocked': rig.blocked,
+        'held': rig.held, 'blocked': rig.blocked, 'cheld': rig.held_children(),
     }
     return o, closed
 
@@ -147,6 +150,38 @@ def gen_and_run(rng, n, style):
     try:
         if style != 'nologin':
             do(['SI'])
+        if style == 'slots':
+            # one slot free; a slow peer takes it (its initial branch values are still being written) while another connects
+            sp = rng.choice([5120, 10240])
+            do(['OS', sp], src='server')
+            for _ in range(sp // 5120 - 1):
+                c = next_c[0]; next_c[0] += 1
+                do(['PI', c, rng.choice(PEER_NAMES), False])
+            c1 = next_c[0]; next_c[0] += 1
+            do(['PI', c1, rng.choice(PEER_NAMES), False, 'hold'])
+            for _ in range(rng.choice([1, 2])):
+                c = next_c[0]; next_c[0] += 1
+                do(['PI', c, rng.choice(PEER_NAMES), False])
+            do(['CR', c1])
+            n += len(events)
+        if style == 'reparent':
+            # parent A with children, A is lost, B with the SAME level and root becomes the parent
+            lvl, root = rng.choice([1, 3, 7]), rng.choice(['root1', 'root2'])
+            a = next_c[0]; next_c[0] += 1
+            do(['PI', a, rng.choice(PEER_NAMES), True])
+            do(['BL', a, lvl], src=a)
+            do(['BR', a, root], src=a)
+            for _ in range(rng.choice([1, 2])):
+                c = next_c[0]; next_c[0] += 1
+                do(['PI', c, rng.choice(PEER_NAMES), False])
+            do(['CC', a])
+            b = next_c[0]; next_c[0] += 1
+            do(['PI', b, rng.choice(PEER_NAMES), True])
+            if rng.random() < 0.5:
+                do(['BL', b, lvl], src=b); do(['BR', b, root], src=b)
+            else:
+                do(['BR', b, root], src=b); do(['BL', b, lvl], src=b)
+            n += len(events)
         if style in ('tree', 'treehold'):
             # directed prefix: a parent, 1..3 children, sometimes a further candidate
             c = next_c[0]; next_c[0] += 1
@@ -252,6 +287,7 @@ def monitor(events, obs):
     had_session = False
     f11_pending = False
     dirty = set()             # children that missed an announcement because no session existed
+    slow_dirty = set()        # children whose _add_child was still suspended in its first write when the position changed
     prev = {'parent': None, 'children': [], 'peers': [], 'cands': [], 'accept': True, 'max': 5, 'live': [], 'session': False}
     pmin = pratio = None
     for i, (ev, o) in enumerate(zip(events, obs)):
@@ -332,11 +368,15 @@ def monitor(events, obs):
                     add('child-gained-without-incoming-connection', 'child added by an unexpected event', {'step': i, 'event': ev})
                 if not o['session']:
                     dirty.add(c)
+        if len(ch) > max(o['max'], 0) and len(ch) > len(prev['children']):
+            add('children-exceed-max', f"{len(ch)} children with max {o['max']} after a child was added", {'step': i, 'children': ch, 'max': o['max']})
         # --- bookkeeping for the classification of stale announcements
         pos = expected_position(o)
         ppos = expected_position(prev)
         if pos != ppos and not o['session']:
             dirty.update(ch)
+        if pos != ppos:
+            slow_dirty.update(c for c in o.get('cheld', []) if c in ch and c in prev['children'])
         if ev[0] in ('BL', 'BR') and prev['parent'] == ev[1] and o['parent'] == ev[1] and pos != ppos and not srv_told_now:
             f11_pending = True
         elif srv_told_now:
@@ -350,11 +390,13 @@ def monitor(events, obs):
                     'branch level/root/parent search last told to the server differ from the position derived from the parent',
                     {'step': i, 'told': list(got), 'position': list(want)})
             for c in ch:
-                if c not in o['live']:
-                    continue
+                if c not in o['live'] or c in o.get('cheld', []):
+                    continue       # closed, or its initial branch values are still being written (slow peer)
                 g = tuple(told.get(c, [None, None]))
                 if g != (pos[0], pos[1]):
-                    add(F27_KEY if c in dirty else 'child-told-stale-position',
+                    # F28: only the ROOT is stale (it was read before the suspended level write and sent after it)
+                    f28 = c in slow_dirty and g[0] == pos[0] and g[1] != pos[1]
+                    add(F27_KEY if c in dirty else F28_KEY if f28 else 'child-told-stale-position',
                         'branch level/root last told to a child differ from the position derived from the parent',
                         {'step': i, 'conn': c, 'told': list(g), 'position': list(pos)})
         prev = o
@@ -391,6 +433,8 @@ def ev_coq(ev):
         return f'OwnStats {ev[1]}%Z'
     if k == 'RD':
         return 'ResetDistributed'
+    if k == 'CR':
+        return 'PotentialParents []'      # no-op of the model: nothing may change when a slow peer resumes
     if k == 'H':
         return 'Hold'
     if k == 'R':
@@ -494,7 +538,7 @@ def valid(events):
             if e[1] in known:
                 return False
             known.add(e[1])
-        elif e[0] in ('BL', 'BR', 'CC'):
+        elif e[0] in ('BL', 'BR', 'CC', 'CR'):
             if e[1] not in known or e[1] in dead:
                 return False
             if e[0] == 'CC':
@@ -526,7 +570,7 @@ def run(run: Run):
 
     n_hist = 260 if run.tier == 'quick' else 2600
     cases = []
-    styles = ['mixed', 'tree', 'hold', 'treehold', 'children', 'tree', 'f10', 'session', 'plain', 'treehold', 'mixed', 'nologin']
+    styles = ['mixed', 'tree', 'hold', 'treehold', 'children', 'reparent', 'tree', 'f10', 'slots', 'session', 'plain', 'treehold', 'mixed', 'nologin']
     for i in range(n_hist):
         style = styles[i % len(styles)]
         n = run.rng.randrange(3, 12 if run.tier == 'quick' else 16)
@@ -544,6 +588,16 @@ def run(run: Run):
         for k, what, detail in monitor(events, obs):
             small = shrink_events(events, k)
             run.add_finding(Finding(k, what, {'events': small, 'detail': detail}, observed=detail.get('told'), expected=detail.get('position')))
+
+    # L3 only (monitor, no model): a slow new child while the parent announces a new LEVEL.  The model has no notion of a
+    # half-written _add_child with level != 0, so these histories are not part of the correspondence.
+    for lvl, new, nkids in ((3, 5, 0), (1, 0, 1), (7, 2, 2)):
+        evs = [['SI'], ['PI', 1, 'alice', True], ['BL', 1, lvl], ['BR', 1, 'root1']]
+        evs += [['PI', 10 + k, 'bob', False] for k in range(nkids)]
+        evs += [['PI', 2, 'carol', False, 'hold'], ['BL', 1, new], ['CR', 2]]
+        run.case({'l3': evs}, kind='l3-slow-child')
+        for k, what, detail in violations(evs):
+            run.add_finding(Finding(k, what, {'events': evs, 'detail': detail}, observed=detail.get('told'), expected=detail.get('position')))
 
     # float agreement of the child limit on a fixed grid (measured, never a verdict by itself)
     dis = sum(1 for r in range(1, 120) for s in range(0, 60000, 512) if not float_ok(s, r))
